@@ -232,11 +232,9 @@ def _keyed_by_unknown_source(nn, site):
     if head(b) in ("iter", "citer") and head(strip(b[-1])) == "sub":
         key = strip(strip(b[-1])[2])
         mi = nn.map_info(site.q, strip(b[-1])[1])
-        if mi and mi["key"] == ("elem",) and head(key) == "item" and head(strip(key[1])) in ("iter", "citer"):
-            it = strip(strip(key[1])[-1])
-            src = strip(strip(it[1])[1]) if is_mcall(it, "items") else it
-            if not is_call(src, MOD + "_generate_neighbors"):
-                site.extra["key_source"] = show(src, 60)
+        if mi and mi["key"] == ("elem",) and ((head(key) == "item" and head(strip(key[1])) in ("iter", "citer")) or head(key) in ("iter", "citer")):
+            if _ball_of_key(key) is None:
+                site.extra["key_source"] = show(key, 60)
                 return True
     return False
 
@@ -354,6 +352,13 @@ def add_implicit_guards(nn, site):
         coll = strip(b[1])
     while coll is not None and is_call(coll) and head(strip(coll[1])) == "glob" and strip(coll[1])[1] in ("builtins.list", "builtins.tuple", "builtins.sorted") and coll[2]:
         coll = strip(coll[2][0])
+    if coll is not None and head(coll) == "comp" and coll[1] in ("list", "gen", "set") and len(coll[3]) == 1 and strip(coll[2]) == coll[3][0][0]:
+        # B drawn from [y for y in C if cond(y)]  =>  cond(B)
+        ce = coll[3][0][0]
+        for c in coll[3][0][1]:
+            for atom, pol in lits(simplify(subst(c, {ce: site.b})), True):
+                site.guards.append((atom, pol))
+                site.extra.setdefault("implicit", []).append(show(atom, 80))
     if coll is not None and is_call(coll, "builtins.filter") and len(coll[2]) == 2 and head(strip(coll[2][0])) == "lam":
         body = apply_lam(strip(coll[2][0]), (site.b,), {})
         if body is not None:
@@ -363,17 +368,30 @@ def add_implicit_guards(nn, site):
     return site
 
 
-def bfs_implied(nn, site, dinfo):
-    """If the second operand of the reported distance is the key of a loop over _generate_neighbors(x, k, h).items(), the pair lies
-    in the breadth-first ball: distance(x, key) <= k (lemma L8)."""
-    out = []
-    y = strip(dinfo["ops"][1])
+def _ball_of_key(y):
+    """The _generate_neighbors(...) call whose keys the term ranges over: key of .items(), member of .keys(), member of the dict itself."""
+    y = strip(y)
     if head(y) == "item" and y[2] == 0 and head(strip(y[1])) in ("iter", "citer"):
         it = strip(strip(y[1])[-1])
         if is_mcall(it, "items"):
             gen = strip(strip(it[1])[1])
-            if is_call(gen, MOD + "_generate_neighbors") and len(gen[2]) == 3 and is_const(gen[2][2]) and strip(gen[2][0]) == strip(dinfo["ops"][0]):
-                out.append(("HAMEQ" if gen[2][2][2] else "LEV", gen[2][1]))
+            return gen if is_call(gen, MOD + "_generate_neighbors") else None
+        return None
+    if head(y) in ("iter", "citer"):
+        it = strip(y[-1])
+        if is_mcall(it, "keys"):
+            it = strip(strip(it[1])[1])
+        return it if is_call(it, MOD + "_generate_neighbors") else None
+    return None
+
+
+def bfs_implied(nn, site, dinfo):
+    """If the second operand of the reported distance is a key of _generate_neighbors(x, k, h) (loop over .items(), .keys() or the dict), the
+    pair lies in the breadth-first ball: distance(x, key) <= k (lemma L8)."""
+    out = []
+    gen = _ball_of_key(dinfo["ops"][1])
+    if gen is not None and len(gen[2]) == 3 and is_const(gen[2][2]) and strip(gen[2][0]) == strip(dinfo["ops"][0]):
+        out.append(("HAMEQ" if gen[2][2][2] else "LEV", gen[2][1]))
     return out
 
 
@@ -1033,6 +1051,26 @@ def check_encoder(r, rule):
     seq = ("param", s.params[0][0])
     incs = [e for e in s.events if e.kind in ("augitem", "setitem") and strip_all(e["obj"]) == strip_all(s.ret)]
     where = wh(r, q, s.func.node)
+    if not incs:
+        # counting idiom: np.bincount(<map[char] for char in cdr3>, minlength=dimension)
+        z = strip_all(s.ret)
+        if is_call(z, "numpy.bincount") and z[2]:
+            src = strip(z[2][0])
+            while is_call(src) and head(strip(src[1])) == "glob" and strip(src[1])[1] in ("numpy.fromiter", "numpy.array", "numpy.asarray", "builtins.list") and src[2]:
+                src = strip(src[2][0])
+            ok = head(src) == "comp" and src[1] in ("gen", "list") and len(src[3]) == 1 and not src[3][0][1] and strip(src[3][0][0][3]) == seq
+            ok_idx = False
+            if ok:
+                ce = src[3][0][0]
+                elt = strip(src[2])
+                ok_idx = head(elt) == "sub" and strip(elt[2]) == ce and not any(x == ce for x in walk(elt[1])) and head(strip(elt[1])) in ("comp", "dict", "glob", "call")
+            r.rep.ob(rule, q, ok, "every character of the sequence is counted once, unguarded", where, expected="np.bincount(map[char] for char in cdr3)", found=show(src, 80), key="enc loop")
+            r.rep.ob(rule, q, ok_idx, "the coordinate is chosen by a map of the character only (not of its position)", where, expected="position_map[char]", found=show(src, 80), key="enc map")
+            r.rep.ob(rule, q, "weights" not in dict(z[3]) and len(z[2]) == 1, "each character counts exactly 1 (no weights)", where, expected="no weights", found=show(z, 60), key="enc increment")
+            r.rep.ob(rule, q, "minlength" in dict(z[3]), "the vector has the full dimension (bins without letters are zero)", where, expected="minlength=dimension", found=show(z, 60), key="enc zeros")
+            return
+        r.rep.require(False, f"{q}: the encoder is neither a per-character increment loop nor np.bincount over a per-character map; cannot decide [{rule}]")
+        return
     if len(incs) != 1:
         r.rep.ob(rule, q, False, "exactly one coordinate update per character", where, expected="one 'ans[map[char]] += 1'", found=f"{len(incs)} stores into the result vector", key="enc one store")
         return
